@@ -108,6 +108,26 @@ class FSoup(FTag):
     def body(self):
         return self.find("body")
 
+    def prettify(self, formatter=None):
+        """verbatim serialisation of what was assembled (attribute values and strings unescaped,
+        as bs4 does with formatter=None)"""
+        out = []
+
+        def walk(t, depth):
+            attrs = "".join(f' {k}="{v}"' for k, v in t.attrs.items())
+            out.append(" " * depth + f"<{t.name}{attrs}>")
+            if t.string is not None:
+                out.append(" " * (depth + 1) + str(t.string))
+            for c in t.contents:
+                if isinstance(c, FTag):
+                    walk(c, depth + 1)
+                else:
+                    out.append(" " * (depth + 1) + str(c))
+            out.append(" " * depth + f"</{t.name}>")
+        for c in self.contents:
+            walk(c, 0)
+        return "\n".join(out)
+
 
 def sami_soup():
     return FSoup(("sami", [("head", [("style", [])]), ("body", [])]))
